@@ -27,7 +27,8 @@ BRANCHES = [
     "replace_program", "replace_programs:program-swapped", "error.after-self-destruct", "error.caught-by-catch", "reload_object", "enable_commands", "eval_cost-used", "timer_flags-set",
     "chb.call.living:command_giver=ob", "chb.call.not-living:command_giver=0", "chb.call.eval_cost-was-full",
     "chb.call.eval_cost-reset-after-use", "chb.timer_flags-without-HEARTBEAT:empty",
-    "chb.timer_flags-without-HEARTBEAT:list-kept",
+    "chb.timer_flags-without-HEARTBEAT:list-kept", "backend.start-up-call", "backend.further-passes-after-error",
+    "backend.tick-served-right-after-an-abandoned-round", "backend.pass-limit",
 ]
 
 
@@ -70,6 +71,11 @@ class C11(Prop):
         "NV.C11.sim_round",
         "NV.C11.sim_reload",
         "NV.C11.sim_tick",
+        "NV.C11.sim_tickCore",
+        "NV.C11.sim_applyRp",
+        "NV.C11.sim_morePasses",
+        "NV.C11.roundRef_cg",
+        "NV.C11.tick_cg_none",
         "NV.C11.searchLoop_eq",
         "NV.C11.searchBack_eq_idxOf",
         "NV.C11.searchBack_none_iff",
@@ -176,7 +182,8 @@ class C11(Prop):
         return text
 
     def prepare(self, ctx):
-        self.exe = E.compile_harness("c11", [os.path.join(E.VERIF, "harness/c11/c11.c")])
+        self.exe = E.compile_harness("c11", [os.path.join(E.VERIF, "harness/c11/c11.c")],
+                                     extra=("-Wl,--wrap=do_comm_polling", "-Wl,--wrap=remove_destructed_objects"))
         self.conf = E.make_mudlib(ctx.rundir)
 
     def run_impl(self, ctx, cases):
@@ -331,6 +338,16 @@ class C11(Prop):
         mk("timer-flags-other-bits", pop3 + ["tflags 4", "tick", "tflags 6", "tick", "tflags 0", "tick", "tflags 2", "tick"])
         mk("timer-flags-off-empty-list", ["tflags 0", "tick", "do o0 clone,o2,0,1", "tick", "tflags 2", "tick"])
         mk("timer-fired-then-flags-off", pop3 + ["do o2 flag", "tflags 0", "tick", "tflags 2", "tick"])
+        # --- the real backend() loop: the (emulated) timer fires during a round that is then abandoned by an error - the loop
+        #     goes round again and serves the next tick right away; the harness stops delivering ticks after maxPass rounds
+        mk("timer-fired-in-abandoned-round", pop3 + ["script o3 hb:0 flag;err", "tick", "do o0 hbs", "tick"])
+        mk("timer-fired-in-abandoned-round-flags-off", pop3 + ["script o2 hb:0 flag;err;hbs", "script o3 hb:0 rp", "tick", "tflags 0",
+                                                              "do o3 flag", "tick", "tflags 2", "tick"])
+        chain = ["do o0 clone,o%d,0,1" % i for i in range(2, 12)]
+        mk("pass-limit", chain + ["script o%d hb:0 flag;err" % i for i in range(2, 12)] + ["tick", "do o0 hbs", "tick", "do o0 hbs"])
+        mk("pass-limit-not-reached", chain + ["script o%d hb:0 flag;err" % i for i in range(2, 7)] + ["tick", "do o0 hbs", "tick"])
+        mk("command-giver-after-rounds", pop3 + ["do o4 living", "tick", "script o4 hb:1 err", "tick", "do o2 living", "do o0 shb,o4,1",
+                                                "script o4 hb:2 flag", "tick", "tick"])
         mk("empty", ["tick", "do o0 hbs", "tick"])
         mk("dead-and-unknown", ["do o0 clone,o2,0,1", "do o0 dest,o2", "do o0 dest,o2", "do o0 shb,o2,1", "do o0 q,o9",
                                 "do o2 hbs", "do o9 hbs", "do o0 dest,o0", "do o0 dest,o1", "do o0 clone,o2,0,1", "tick"])
